@@ -11,6 +11,8 @@ import ObiVerif.Model.Pcr
   primer: in the reverse block the direct site is the reverse primer's (`reverse_match` as it is in the template,
   `reverse_error = fm[2]`) and the complemented site is the forward primer's (`forward_match` reverse-complemented,
   `forward_error = rm[2]`) — `emitReverse` of `Model/Pcr.lean`.
+* `pcrE` — `_Pcr` on a piece cut by `IFragments`, as repaired by `notes/patches/C11-fragment-inner-ends.diff`: a piece end that
+  is not an end of the fragmented sequence does not clip a flank, the pair is skipped.
 * `cliPieces` / `cliRun` — `obipcr.CLIPCR` on one template (`pkg/obitools/obipcr/pcr.go`), as repaired by
   `notes/patches/C11-circular-not-fragmented.diff`: `--fragmented` is ignored with `--circular`.
 -/
@@ -56,6 +58,67 @@ def annotate (fwd rev : Bytes) (tpl : Annot) (x : Amplicon) : Annot :=
     (.int x.ferr)).set (.pcr .reversePrimer) (.str rev)).set (.pcr .reverseMatch) (.str x.rmatch)).set (.pcr .reverseError)
     (.int x.rerr)).set (.pcr .direction) (.str (dirBytes x.isForward)))
 
+/-! ## pieces of a fragmented template (patch `notes/patches/C11-fragment-inner-ends.diff`)
+
+`IFragments` marks each piece with the ends that are not ends of the sequence it was cut from
+(`BioSequence.MarkFragmentEnds(i > 0, end < s.Len())`); `_Pcr` reads the marks of its template (`FragmentEnds`) and, where the
+unpatched code clipped a flank (`if from < 0 { from = 0 }`, `if to > seq.Len() { to = seq.Len() }`), skips the pair
+(`continue`) when the clipping end is marked; the marks are removed from the annotations of the amplicons
+(`ClearFragmentEnds`). -/
+
+/-- the marks of a template -/
+structure Ends where
+  innerStart : Bool
+  innerEnd : Bool
+  deriving Repr, DecidableEq
+
+/-- a template that is not a piece -/
+def Ends.none : Ends := ⟨false, false⟩
+
+/-- the two `continue`: a flank would be clipped by an end that is not an end of the fragmented sequence -/
+def endsReject (e : Ends) (o : Opts) (L : Int) (fm rm : Hit) : Bool :=
+  o.hasExtension && !o.fullExtension && !o.circular &&
+    ((decide (fm.1 - o.extension < 0) && e.innerStart) || (decide (rm.2.1 + o.extension > L) && e.innerEnd))
+
+/-- `pairStep` of the patched code (same order of the tests) -/
+def pairStepE (e : Ends) (isFwd : Bool) (o : Opts) (seq : Bytes) (wrapLen : Int) (fm rm : Hit) : Option (Except Bad Amplicon) :=
+  let L : Int := seq.length
+  if lengthOk o (pairLength o L wrapLen fm rm) then
+    if endsReject e o L fm rm then none
+    else
+      let ft := bounds o L fm rm
+      if boundsOk o L ft then
+        some (if isFwd then emitForward o seq fm rm ft else emitReverse o seq fm rm ft)
+      else none
+  else none
+
+/-- one orientation block of the patched `_Pcr` on a template carrying the marks `e` -/
+def blockE (e : Ends) (isFwd : Bool) (D C : Pattern) (wrapLen winLen : Int) (o : Opts) (seq : Bytes) : List (Except Bad Amplicon) :=
+  let L : Int := seq.length
+  let fms := findAllIndex D seq o.circular 0 (-1)
+  match fms.head?, fms.getLast? with
+  | some first, some last =>
+    let w := revWindow o L winLen first last
+    let rms := findAllIndex C seq o.circular w.1 w.2
+    fms.flatMap fun fm =>
+      if fm.1 < L then
+        rms.filterMap fun rm => if rm.1 < L then pairStepE e isFwd o seq wrapLen fm rm else none
+      else []
+  | _, _ => []
+
+def pcrRawE (e : Ends) (P : Primers) (o : Opts) (seq : Bytes) : List (Except Bad Amplicon) :=
+  blockE e true P.forward P.crev P.forward.patlen P.reverse.patlen o seq ++
+  blockE e false P.reverse P.cfwd P.reverse.patlen P.reverse.patlen o seq
+
+/-- `_Pcr` (patched) on a template carrying the marks `e`; `pcrE Ends.none = pcr` (`Lemmas/PcrEnds.lean`) -/
+def pcrE (e : Ends) (P : Primers) (o : Opts) (seq : Bytes) : Except Bad (List Amplicon) := (pcrRawE e P o seq).mapM id
+
+def pcrSliceE (P : Primers) (o : Opts) (seqs : List (Ends × Bytes)) : Except Bad (List (List Amplicon)) :=
+  seqs.mapM fun es => pcrE es.1 P o es.2
+
+/-- the marks of the piece `[a, b)` of a sequence of `len` symbols -/
+def pieceEnds (len : Nat) (c : Nat × Nat) : Ends := ⟨decide (0 < c.1), decide (c.2 < len)⟩
+
 /-! ## `CLIPCR` -/
 
 /-- the pieces `CLIPCR` makes of a template of `len` symbols: `IFragments` with the parameters of `cliFragParams` when
@@ -66,17 +129,23 @@ def cliPieces (mx : Int) (lf lr : Nat) (delta : Int) (circ frag : Bool) (len : N
     fragments p.1 p.2.1 p.2.2 len
   else some none
 
+/-- the cuts `(start, end)` with their marks: the whole template unmarked, or the pieces of `IFragments` -/
+def cutsOf (len : Nat) (frs : Option (List (Nat × Nat))) : List ((Nat × Nat) × Ends) :=
+  match frs with
+  | none => [((0, len), Ends.none)]
+  | some l => l.map fun c => (c, pieceEnds len c)
+
+/-- `IFragments` then `_PCRSlice` over the (marked) pieces -/
+def pcrCuts (P : Primers) (o : Opts) (t : Bytes) (cuts : List ((Nat × Nat) × Ends)) :
+    Except Bad (List ((Nat × Nat) × List Amplicon)) :=
+  (pcrSliceE P o (cuts.map fun c => (c.2, (t.drop c.1.1).take (c.1.2 - c.1.1)))).map fun per => (cuts.map (·.1)).zip per
+
 /-- `CLIPCR` on one (lower-cased) template: the cuts `(start, end)` and, for each, what `_Pcr` returns with the options of
 `cliOpts` -/
 def cliRun (P : Primers) (lf lr : Nat) (mn mx delta : Int) (full circ frag : Bool) (t : Bytes) :
     Option (Except Bad (List ((Nat × Nat) × List Amplicon))) :=
   match cliPieces mx lf lr delta circ frag t.length with
   | none => none
-  | some frs =>
-    let cuts : List (Nat × Nat) := match frs with
-      | none => [(0, t.length)]
-      | some l => l
-    some ((pcrSlice P (cliOpts mn mx delta full circ) (cuts.map fun c => (t.drop c.1).take (c.2 - c.1))).map fun per =>
-      cuts.zip per)
+  | some frs => some (pcrCuts P (cliOpts mn mx delta full circ) t (cutsOf t.length frs))
 
 end ObiVerif.Pcr
